@@ -214,7 +214,8 @@ func xbinExec(ctx *Ctx, w []string) {
 		case "mu":
 			v, _ := strconv.ParseUint(w[1], 10, 64)
 			n, _ := strconv.Atoi(w[2])
-			buf := make([]byte, n)
+			buf, intact := xwin(n)
+			defer func() { ctx.mon("C15-no-write-past-buffer", intact(), fmt.Sprintf("%s: bytes beyond the destination (length %d, spare capacity behind it) were written", w[0], n)) }()
 			k, err := xbinary.MarshalUint(uint(v), buf)
 			sz := xbinary.WritableUintSize(v)
 			monCount("C15 uint short-buffer-iff")
@@ -253,7 +254,8 @@ func xbinExec(ctx *Ctx, w []string) {
 			v, _ := strconv.ParseUint(w[2], 10, 64)
 			n, _ := strconv.Atoi(w[3])
 			it := xItem{map[int]byte{1: 'b', 2: 'h', 4: 'w', 8: 'q'}[k], v, nil}
-			buf := make([]byte, n)
+			buf, intact := xwin(n)
+			defer func() { ctx.mon("C15-no-write-past-buffer", intact(), fmt.Sprintf("%s: bytes beyond the destination (length %d, spare capacity behind it) were written", w[0], n)) }()
 			wn, err := it.marshal(buf)
 			monCount("C15 fixed short-buffer-iff")
 			ctx.mon("C15-fixed-short-buffer-iff", (err != nil) == (n < k), fmt.Sprintf("k=%d buflen=%d err=%v", k, n, err))
@@ -287,7 +289,8 @@ func xbinExec(ctx *Ctx, w []string) {
 				}
 			}
 			n, _ := strconv.Atoi(w[2])
-			buf := make([]byte, n)
+			buf, intact := xwin(n)
+			defer func() { ctx.mon("C15-no-write-past-buffer", intact(), fmt.Sprintf("%s: bytes beyond the destination (length %d, spare capacity behind it) were written", w[0], n)) }()
 			k, err := xbinary.MarshalBytes(d, buf)
 			sz := xbinary.WritebleBytesSize(d)
 			ssz := xbinary.WritableStringSize(string(d))
@@ -310,7 +313,8 @@ func xbinExec(ctx *Ctx, w []string) {
 			ctx.mon("C15-newbuf-independent", bytes.Equal(dd, d), "decoded data changed when the source buffer was overwritten")
 			sn, ss, serr := xbinary.UnmarshalString(append(append([]byte{}, buf[:k]...), 0x01), true)
 			ctx.mon("C15-string-roundtrip", serr == nil && sn == k && ss == string(d), fmt.Sprintf("len=%d string decoded n=%d err=%v", len(d), sn, serr))
-			sb := make([]byte, n)
+			sb, sIntact := xwin(n)
+			defer func() { ctx.mon("C15-no-write-past-buffer", sIntact(), fmt.Sprintf("%s (string): bytes beyond the destination (length %d, spare capacity behind it) were written", w[0], n)) }()
 			sk, serr2 := xbinary.MarshalString(string(d), sb)
 			ctx.mon("C15-string-eq-bytes", serr2 == nil && sk == k && bytes.Equal(sb[:sk], buf[:k]), "MarshalString differs from MarshalBytes")
 			if w[0] == "mbz" {
@@ -470,6 +474,27 @@ func xbinExec(ctx *Ctx, w []string) {
 		ctx.R.Quiet("mon C16-no-panic "+w[0], "the call panicked: "+op)
 	}
 	flushMon(ctx)
+}
+
+// xwin returns a destination of length n that is a WINDOW into a larger array (spare capacity behind it, filled
+// with a sentinel) and a function telling whether the bytes behind the window are still untouched: an encoder that
+// measures its destination by capacity writes past the end of a too-short window instead of refusing.
+func xwin(n int) ([]byte, func() bool) {
+	backing := make([]byte, n+24)
+	for i := range backing {
+		backing[i] = 0xA5
+	}
+	for i := 0; i < n; i++ {
+		backing[i] = 0
+	}
+	return backing[:n], func() bool {
+		for _, b := range backing[n:] {
+			if b != 0xA5 {
+				return false
+			}
+		}
+		return true
+	}
 }
 
 func runXbin(ctx *Ctx) {
